@@ -578,13 +578,17 @@ func (vc *FuncVC) hoSortSlice(st *State, fn *ssa.Function, c *ssa.CallCommon, ar
 		hs := ArraySort(SRef, ArraySort(SInt, vc.sortOf(lt)))
 		nh := st.heap(vc, name, hs)
 		oh := old.heap(vc, name, hs)
-		newEl := Select(Select(nh, SArr(s)), Add(SOff(s), i))
-		oldEl := Select(Select(oh, SArr(s)), Add(SOff(s), pi))
-		st.assume(Term{fmt.Sprintf("(forall ((i!s Int)) (! (=> %s (= %s %s)) :pattern (%s)))", inR(i).S, newEl.S, oldEl.S, pi.S), SBool})
+		// indexed by the absolute position K so that the patterns contain no arithmetic
+		kk := Term{"k!s", SInt}
+		rel := Sub(kk, SOff(s))
+		inW := And(Le(SOff(s), kk), Lt(kk, Add(SOff(s), n)))
+		newEl := Select(Select(nh, SArr(s)), kk)
+		oldEl := Select(Select(oh, SArr(s)), Add(SOff(s), mk(SInt, p, rel)))
+		st.assume(Term{fmt.Sprintf("(forall ((k!s Int)) (! (=> %s (= %s %s)) :pattern (%s)))", inW.S, newEl.S, oldEl.S, newEl.S), SBool})
 		// and the other direction, so that facts about old elements reach the new ones
-		oldAt := Select(Select(oh, SArr(s)), Add(SOff(s), i))
-		newAt := Select(Select(nh, SArr(s)), Add(SOff(s), qi))
-		st.assume(Term{fmt.Sprintf("(forall ((i!s Int)) (! (=> %s (= %s %s)) :pattern (%s)))", inR(i).S, oldAt.S, newAt.S, qi.S), SBool})
+		oldAt := Select(Select(oh, SArr(s)), kk)
+		newAt := Select(Select(nh, SArr(s)), Add(SOff(s), mk(SInt, pinv, rel)))
+		st.assume(Term{fmt.Sprintf("(forall ((k!s Int)) (! (=> %s (= %s %s)) :pattern (%s)))", inW.S, oldAt.S, newAt.S, oldAt.S), SBool})
 	}
 	// sortedness
 	if cl != nil {
@@ -594,8 +598,20 @@ func (vc *FuncVC) hoSortSlice(st *State, fn *ssa.Function, c *ssa.CallCommon, ar
 		st3.assume(inR(ci))
 		st3.assume(inR(cj))
 		if lt, ok := vc.evalClosurePure(st3, cl, []Term{ci, cj}, pos); ok && lt.Sort == SBool {
-			body := substTokens(lt.S, map[string]string{ci.S: "i!s", cj.S: "j!s"})
-			st.assume(Term{fmt.Sprintf("(forall ((i!s Int) (j!s Int)) (=> (and (<= 0 i!s) (< i!s j!s) (< j!s %s)) (not %s)))", n.S, substTokens(body, map[string]string{"i!s": "j!s", "j!s": "i!s"})), SBool})
+			// state sortedness over absolute positions Ki < Kj of the backing array: less(j, i) is false
+			off := SOff(s).S
+			relI := "(- i!s " + off + ")"
+			relJ := "(- j!s " + off + ")"
+			body := substTokens(lt.S, map[string]string{ci.S: relJ, cj.S: relI}) // less(j, i)
+			if off == "0" {
+				body = substTokens(lt.S, map[string]string{ci.S: "j!s", cj.S: "i!s"})
+			} else {
+				body = strings.ReplaceAll(body, "(+ "+off+" "+relI+")", "i!s")
+				body = strings.ReplaceAll(body, "(+ "+off+" "+relJ+")", "j!s")
+			}
+			lo := SOff(s).S
+			hi := Add(SOff(s), n).S
+			st.assume(Term{fmt.Sprintf("(forall ((i!s Int) (j!s Int)) (=> (and (<= %s i!s) (< i!s j!s) (< j!s %s)) (not %s)))", lo, hi, body), SBool})
 			vc.lastLess = body
 		}
 	}
